@@ -17,7 +17,53 @@ def run_one(pid: str, tier: str, seed: int, only_key=None) -> int:
         print(f"ANALYSIS-ERROR property={pid} no checker module")
         return 2
     ctx = Ctx(tier, seed)
-    return core.run_property(pid, lambda rep: mod.check(rep, ctx), tier, seed, only_key=only_key)
+    rc = core.run_property(pid, lambda rep: mod.check(rep, ctx), tier, seed, only_key=only_key)
+    if tier == "thorough" and rc == 0 and only_key is None and not os.environ.get("KVERIF_NO_SELFVALIDATION"):
+        rc = self_validate(pid)
+    return rc
+
+
+def self_validate(pid: str) -> int:
+    """Thorough tier: after the tree verdict, re-run this property's check on every corpus / seeded
+    variant that is expected to break it (each must be reported, naming the construct) and on the
+    behaviour-preserving variants listed for it (each must stay silent).  The outcome never changes
+    a tree verdict into a violation; an undetected control is exit 2."""
+    import time
+    from concurrent.futures import ThreadPoolExecutor
+    from .controls import run_controls
+    from .corpus import MUTANTS, SILENT
+    from .selftest import run_variant, load_seeded
+    t0 = time.time()
+    missed = [f"control: {m}" for m in run_controls(with_mutants=False)]
+    muts = [dict(m, checks=[pid], expect={pid: m.get("expect", {}).get(pid, "")}) for m in MUTANTS + load_seeded() if pid in m["checks"]]
+    sil = [dict(m, checks=[pid]) for m in SILENT if pid in m["checks"]]
+    env_jobs = int(os.environ.get("KVERIF_JOBS", "4"))
+    os.environ["KVERIF_NO_SELFVALIDATION"] = "1"
+    with ThreadPoolExecutor(env_jobs) as ex:
+        r1 = list(ex.map(lambda v: run_variant(v, "mutant"), muts))
+        r2 = list(ex.map(lambda v: run_variant(v, "silent"), sil))
+    missed += [f"mutant {r['id']}: {r.get('why')}" for r in r1 if not r["ok"]]
+    missed += [f"silent variant {r['id']}: {r.get('why')}" for r in r2 if not r["ok"]]
+    path = core.EVIDENCE_DIR / f"{pid}.json"
+    try:
+        ev = json.loads(path.read_text())
+        ev["coverage"]["selfvalidation"] = {
+            "breaking_variants_detected": [r["id"] for r in r1 if r["ok"]],
+            "behaviour_preserving_variants_silent": [r["id"] for r in r2 if r["ok"]],
+            "missed": missed, "wall_s": round(time.time() - t0, 1),
+            "note": "each breaking variant is a single realistic edit (own corpus + independently written seeded changes) applied to a "
+                    "scratch copy; this property's check must exit 1 and name the edited construct"}
+        ev["wall_s"] = round(ev.get("wall_s", 0) + time.time() - t0, 3)
+        path.write_text(json.dumps(ev, indent=1, default=str))
+    except Exception as e:
+        missed.append(f"evidence update failed: {e}")
+    print(f"{pid} [thorough] self-validation: {len([r for r in r1 if r['ok']])}/{len(r1)} breaking variants detected, "
+          f"{len([r for r in r2 if r['ok']])}/{len(r2)} preserving variants silent, {time.time() - t0:.0f}s")
+    if missed:
+        for m in missed:
+            print(f"ANALYSIS-ERROR property={pid} self-validation: {m}"[:400])
+        return 2
+    return 0
 
 
 def main(argv=None) -> int:
